@@ -71,17 +71,21 @@ let () = each_line (fun l ->
     let ot = toks_of_line o in
     if List.mem "non_std" ot.rest then fail "nonstd";
     if kind = "O" then begin
-      (* O1 probe (reported, not gated): dump of a trimming result of an automaton with its own alphabet *)
+      (* O1: an explicit tree automaton with its own alphabet (SetAlphabet) is trimmed; the result must be
+         dumpable with the names it was loaded with: its rules are rules of d, its finals are d's finals, and
+         every nullary rule of d into a final state is still there *)
       let _tx = word ct in
       expect ct "D"; let d = read_desc ct in
       expect ot "O1";
       (match word ot with
        | "OK" ->
            (match parse (bytes_of_hex (word ot)) with
-            | Some e -> if sub_t e.d_trans d.d_trans && sub_b e.d_finals d.d_finals then note "o1=dumped-right-names"
-                        else note "o1=dumped-wrong-names"
-            | None -> note "o1=dumped-unreadable")
-       | _ -> note "o1=dump-throws");
+            | Some e ->
+                let keeps = List.for_all (fun t -> if t.t_ch = [] && mem_b t.t_par d.d_finals then mem_t t e.d_trans else true) d.d_trans in
+                if sub_t e.d_trans d.d_trans && same_b e.d_finals d.d_finals && keeps then note "o1=dumped-right-names"
+                else (note "o1=dumped-wrong-names"; fail "o1_result_alphabet")
+            | None -> note "o1=dumped-unreadable"; fail "o1_result_alphabet")
+       | _ -> note "o1=dump-throws"; fail "o1_result_alphabet");
       finish ()
     end else begin
       let text, dopt =
